@@ -98,6 +98,22 @@ fn pool() -> &'static Pool {
             ResidualModel::PcSaftFunctional(PcSaftFunctional::new(Arc::new(pcsaft_params(&["butane"])))),
             None,
         );
+        {
+            // heterosegmented mixture: the segment-to-component map is not the identity
+            let p = GcPcSaftFunctionalParameters::from_json_segments(
+                &["propane", "butane"],
+                repo_file("parameters/pcsaft/gc_substances.json"),
+                repo_file("parameters/pcsaft/sauer2014_hetero.json"),
+                None,
+                IdentifierOption::Name,
+            )
+            .unwrap_or_else(|e| harness(&format!("gc functional mixture: {e}")));
+            add(
+                "gc_pcsaft_functional_propane_butane",
+                ResidualModel::GcPcSaftFunctional(GcPcSaftFunctional::new(Arc::new(p))),
+                Some(0.5),
+            );
+        }
         Pool {
             systems,
             memo: Mutex::new(HashMap::new()),
@@ -352,6 +368,7 @@ fn execute(sc: &Scenario) -> RunOutcome {
     let what = |i: usize| format!("{} {:?} T={} Tc n={} op {i}", sys.name, sc.kind, sc.tf, sc.n_grid);
     for (i, op) in sc.ops.iter().enumerate() {
         dg.u64(i as u64);
+        out.note(format!("op {i}: {op:?}"));
         match op {
             Op::Solve { chain, debug } => {
                 let solver = build_solver(chain);
@@ -370,6 +387,7 @@ fn execute(sc: &Scenario) -> RunOutcome {
                     }
                 };
                 let iters = obj.profile().solver_log.as_ref().map_or(0, |l| l.residual().len());
+                out.note(format!("  -> {} after {iters} logged iterations", if res.is_ok() { "Ok" } else { "Err" }));
                 out.steps += iters as u64;
                 out.count("op.solve", 1);
                 let last = chain.last();
